@@ -14,6 +14,7 @@ func init() {
 	register("C10", "Structural necessary conditions of the sparse Merkle trie's root/proof properties. History independence, agreement with LIP-0039 and proof soundness/completeness as such are equalities between hash computations over all maps and update sequences and are NOT decided; what is decided, for every path: "+
 		"(D1) domain separation: leaf, branch and empty-node prefixes are pairwise different constants, a leaf hashes prefix‖key‖value and a branch prefix‖left‖right, the empty tree's root is the hash of the empty string; the subtree parser's case constants equal the constructors' prefixes; "+
 		"(U1) persistence: every successful return of updateSubtree that computed a new subtree has stored it under its root (the only store-free success is the 'no keys' exit), a stored record that updateNode deletes is rewritten by the updateSubtree call that follows on every successful path, and Update moves the trie's root only to the root that call returned; "+
+		"(U3) calculateSubTree turns the node list it was handed into a subtree unfolded only at height 0; "+
 		"(U2) bin index: for each supported subtree height the bin index of a key ranges over exactly [0, 2^height) on every successful return (interval evaluation of the shifts and masks on one key byte); "+
 		"(V1) Verify answers true only as bytes.Equal(root argument, CalculateRoot(…)); "+
 		"(V2) every way round Verify's per-query loop has established len(queryKey) == keyLength, len(proofKey) == keyLength, bitmap without a leading zero byte and bitmap length <= 8·keyLength; "+
@@ -181,6 +182,32 @@ func runC10(c *Ctx) {
 			okErr, _ := ff.NilErrAt(st.Block(), IsResult("(*trie/smt.trie).updateSubtree", 1))
 			c.Require("C10.U1 root-follows-update", FuncKey(update)+": trie.root =", p.InstrPos(st), "the trie's root becomes the root updateSubtree returned, and only when it returned no error", okVal && okErr, t.String())
 		}
+	}
+
+	// ------------------------------------------------------------------ U3 collapse at every level
+	// calculateSubTree folds (empty, empty) and (empty, leaf) pairs level by level; the node list
+	// it was handed becomes a subtree unfolded only at height 0. A shortcut that stores the
+	// input list as it is at a higher level keeps an empty node next to a single leaf: the root
+	// then depends on whether a key was ever inserted and deleted there (history).
+	if cst := c.Anchor(pk + "calculateSubTree"); cst != nil {
+		cf := factsOf(cst)
+		n := 0
+		for _, s := range CallsIn(cst, "trie/smt.newSubtreeFromData") {
+			nodes := cf.Term(ArgK(s.Call, 1))
+			if nodes.String() != "p0" {
+				continue // built from the folded list
+			}
+			n++
+			gf := cf
+			if s.Fn != cst {
+				gf = factsOf(s.Fn)
+			}
+			ok := gf.EveryPathHas(s.Call.Block(), func(f Fact) bool {
+				return f.IsCmp && f.Entails(CmpSpec{A: IsParam(2), NoB: true, Rel: EQ, D: 0})
+			})
+			c.Require("C10.U3 collapse-at-every-level", FuncKey(cst)+": subtree from the unfolded input list", p.InstrPos(s.Call), "the node list handed in becomes a subtree as it is only at height 0 (every higher level is folded first)", ok, "")
+		}
+		c.MinInstances("C10.U3 collapse-at-every-level", n, 1)
 	}
 
 	// ------------------------------------------------------------------ U2 bin index
